@@ -26,7 +26,8 @@ impl Iterator for Sweep {
         let s = self.state;
         match self
             .state
-            .checked_add(self.rate as i64 * ((s + BIAS) >> 32))
+            // floor((s + BIAS) / 2^32) without forming s + BIAS, which overflows for s > i64::MAX - BIAS
+            .checked_add(self.rate as i64 * ((s >> 32) + (((s as u32) as i64 + BIAS) >> 32)))
         {
             Some(s) => self.state = s,
             None => self.state = 0,
